@@ -20,6 +20,14 @@ chk('C04',
     COMMON_NOTE, 'bounded-exhaustive explicit-state enumeration of grammar sentences vs reference denotation, run on the real reader',
     'DESIGN.md section 4 C04')
 
+chk('C05',
+    'The grammar transition system extended by multiplier tokens is explored exhaustively within the bound (<=4 written nodes quick / <=5 thorough, '
+    'multipliers 1-3 on nodes and on branches, nested, with bond symbols before / inside / between copies / after, ring bonds elsewhere, annotations, '
+    'seed-selected slice); each shorthand sentence is rewritten by the reference model R-mult and read(shorthand) is compared with read(longhand) and '
+    'with the denotation of the longhand on the real reader. Two recorded defects (nested branch multipliers, >=2 nested groups in a multiplied branch) are reported as KNOWN-FINDING.',
+    COMMON_NOTE, 'bounded-exhaustive explicit-state enumeration of shorthand sentences; metamorphic + reference-model oracle on the real reader',
+    'DESIGN.md section 4 C05')
+
 NOT_YET = {}
 
 def main():
